@@ -56,6 +56,7 @@ pub struct NHistory {
     challenge_nonces: HashMap<u64, Vec<u8>>,             // challenge token sequence -> sealed challenge token seen with it
     max_accepted: HashMap<(u8, u64), u64>, // (direction, client k) -> highest sequence accepted in the current session
     token_instances: HashMap<u64, u32>,  // token index -> number of client instances built from it
+    shown_to_server: HashSet<Vec<u8>>,   // every datagram handed to the server so far, whatever it did with it
     crafted_seen: bool,                  // some datagram of this history was sealed by the harness with a token owner's keys
     owner_crafted: bool,                 // the datagram being delivered was sealed by the owner of the token (op 155)
     delivered_to_client: HashMap<u64, HashSet<Vec<u8>>>,
@@ -136,6 +137,7 @@ impl NHistory {
             challenge_nonces: HashMap::new(),
             max_accepted: HashMap::new(),
             token_instances: HashMap::new(),
+            shown_to_server: HashSet::new(),
             crafted_seen: false,
             owner_crafted: false,
             delivered_to_client: HashMap::new(),
@@ -303,6 +305,7 @@ impl NHistory {
         };
         let connected_before = s.verif_clients().iter().any(|c| c.addr == from);
         let id_connected_before: Vec<u64> = s.verif_clients().iter().map(|c| c.client_id).collect();
+        let full_before = id_connected_before.len() >= s.max_clients();
         // authentic for the session that lives at `from`: opens under that session's client-to-server key
         let session: Option<(u64, Vec<u8>)> = s.verif_clients().iter().chain(s.verif_pending().iter()).find(|c| c.addr == from).map(|c| (c.client_id, c.user_data.to_vec()));
         let session_key: Option<([u8; 32], u64)> = session.and_then(|(id, user)| self.tokens.values().find(|t| t.id == id && t.user == user).map(|t| (t.c2s, t.protocol)));
@@ -319,10 +322,14 @@ impl NHistory {
         self.last_arrival_from.insert(from, s.current_time());
         let replayed = self.delivered_to_server.contains(&(from, data.clone()));
         let is_request = data.first().map(|p| p & 15 == 0).unwrap_or(false);
+        let first_showing = self.shown_to_server.insert(data.clone());
         let op = l(vec![n(110u8), addr_tree(&from), b(&data)]);
         let obs = self.emit(&op);
         if self.res.panicked {
             self.violate("C07", format!("NetcodeServer::process_packet panicked on a datagram of {} bytes from {}", data.len(), from));
+            if full_before && prefix_info(&data).map(|x| x.0 == 3).unwrap_or(false) {
+                self.violate("C10", format!("a connection response from {} that found every slot taken ({} connected) was not denied: the server panicked", from, id_connected_before.len()));
+            }
             return;
         }
         let after = self.server_state();
@@ -390,9 +397,9 @@ impl NHistory {
             }
         }
         // C16/C20: the server decodes what the client encoded - a disconnect packet of the client whose session lives at this
-        // address, delivered unchanged for the first time, ends that session (it carries the newest sequence number
-        // of its sender, so replay protection cannot object)
-        if let (Some((k, _)), true, true, false, false) = (genuine_of, opens && connected_before, prefix_info(&data).map(|x| x.0 == 6).unwrap_or(false), replayed, self.crafted_seen) {
+        // address, shown to the server for the first time (a pending entry records the sequence numbers it sees), ends that
+        // session: it carries the newest sequence number of its sender, so replay protection cannot object
+        if let (Some((k, _)), true, true, false, false) = (genuine_of, opens && connected_before && first_showing, prefix_info(&data).map(|x| x.0 == 6).unwrap_or(false), replayed, self.crafted_seen) {
             let sole = self.client_token.get(&k).map(|t| self.token_instances.get(t).copied() == Some(1)).unwrap_or(false);
             if sole && !self.client_token_reused(k) && kind != 4 {
                 self.violate("C16", format!("the disconnect packet of client {} ({} bytes, as its encoder wrote it) was not decoded by the server: result {}", k, data.len(), obs.to_text().chars().take(40).collect::<String>()));
